@@ -1,14 +1,16 @@
 ----------------------------- MODULE GuardTrace -----------------------------
 (* Linearizability of recorded constructor calls with respect to StoreGuard: *)
-(* events are call(t) / ret(t, ok) / close(t); the linearization point of    *)
-(* each call is a silent step between its call and its return.               *)
+(* events are call(t, kind) / ret(t, ok) / close(t); kind "c" is a           *)
+(* constructor call that can succeed, any other kind one that fails after    *)
+(* the guard; the linearization point of each call is a silent step between  *)
+(* its call and its return.                                                  *)
 EXTENDS StoreGuard, Json, IOUtils, TLCExt, TLC
 
 AllTraces == ndJsonDeserialize(IOEnv.TRACE_FILE)
 ASSUME \A i \in 1..Len(AllTraces) : TLCSet(i, 0)
 
-VARIABLES l, tid, pend, res
-tvars == <<avars, l, tid, pend, res>>
+VARIABLES l, tid, pend, res, kind
+tvars == <<avars, l, tid, pend, res, kind>>
 Tr == AllTraces[tid].ev
 Ev == Tr[l]
 
@@ -16,23 +18,26 @@ TInit == /\ tid \in 1..Len(AllTraces)
          /\ AInit /\ l = 1
          /\ pend = {}                          \* called, not yet linearized
          /\ res = [t \in Threads |-> "none"]   \* linearized, not yet returned
+         /\ kind = [t \in Threads |-> "c"]      \* kind of the pending call
 
 TCall == /\ l <= Len(Tr) /\ Ev.op = "call"
          /\ res[Ev.t] = "none" /\ Ev.t \notin pend
          /\ pend' = pend \cup {Ev.t}
+         /\ kind' = [kind EXCEPT ![Ev.t] = Ev.kind]
          /\ l' = l + 1 /\ UNCHANGED <<avars, res, tid>>
 TLin == \E t \in pend :
-         /\ res' = [res EXCEPT ![t] = Outcome(t, owner)]
-         /\ TryCreate(t)
+         /\ IF kind[t] = "c"
+            THEN res' = [res EXCEPT ![t] = Outcome(t, owner)] /\ TryCreate(t)
+            ELSE res' = [res EXCEPT ![t] = FailOutcome(t, owner)] /\ TryFail(t)
          /\ pend' = pend \ {t}
-         /\ UNCHANGED <<l, tid>>
+         /\ UNCHANGED <<l, tid, kind>>
 TRet == /\ l <= Len(Tr) /\ Ev.op = "ret"
         /\ res[Ev.t] = Ev.ok
         /\ res' = [res EXCEPT ![Ev.t] = "none"]
-        /\ l' = l + 1 /\ UNCHANGED <<avars, pend, tid>>
+        /\ l' = l + 1 /\ UNCHANGED <<avars, pend, tid, kind>>
 TClose == /\ l <= Len(Tr) /\ Ev.op = "close"
           /\ Close(Ev.t)
-          /\ l' = l + 1 /\ UNCHANGED <<pend, res, tid>>
+          /\ l' = l + 1 /\ UNCHANGED <<pend, res, tid, kind>>
 TNext == TCall \/ TLin \/ TRet \/ TClose
 TSpec == TInit /\ [][TNext]_tvars
 
